@@ -399,7 +399,7 @@ func (s *Server) keepaliveHandler(ctx context.Context) {
 				c.IdleTime += idleCheckInterval
 
 				// Check if the user
-				if c.IdleTime > userIdleSeconds && !c.Flags.IsSet(UserFlagAway) {
+				if c.IdleTime > userIdleSeconds && !c.Flags.IsSet(UserFlagAway) && !c.AwaitingAgreement {
 					c.Flags.Set(UserFlagAway, 1)
 
 					c.SendAll(
@@ -554,6 +554,9 @@ func (s *Server) handleNewConnection(ctx context.Context, rwc io.ReadWriteCloser
 	if c.Authorize(AccessDisconUser) {
 		c.Flags.Set(UserFlagAdmin, 1)
 	}
+
+	// A client that sent no name uses the 1.5+ login flow: it is announced, and listed, once it has agreed.
+	c.AwaitingAgreement = len(c.UserName) == 0
 
 	s.ClientMgr.Add(c)
 
